@@ -6,6 +6,7 @@ import (
 	"fmt"
 	"math"
 	"strings"
+	"time"
 
 	"github.com/gogpu/naga/ir"
 	"github.com/gogpu/naga/msl"
@@ -25,7 +26,7 @@ func init() {
 type c15Config struct {
 	backend string
 	label   string
-	oob     int  // wref policy for dynamic accesses; -1 = this backend offers no index policy (access family not applicable)
+	oob     int // wref policy for dynamic accesses; -1 = this backend offers no index policy (access family not applicable)
 	run     func(m *ir.Module, c *wgen.Case, o xrt.Opts) (xrt.Buffers, string, error, *nagax.Panic)
 }
 
@@ -202,13 +203,17 @@ func c15Judge(r *explore.Run, p *prog, backend, label string, ref *refResult, go
 
 func runC15() int {
 	r := explore.New("C15")
-	fams := []*wgen.Family{wgen.F15Ops(), wgen.F15Access(), wgen.F15Zero(), wgen.F15Idx()}
+	if r.Thorough() {
+		r.SetDeadline(60 * time.Minute)
+	}
+	fams := []*wgen.Family{wgen.F15Ops(), wgen.F15Access(), wgen.F15Zero(), wgen.F15Idx(), c15LayoutFamily(r.Thorough())}
 	forEachProgram(r, fams, nil, func(p *prog) { c15Program(r, p) })
 	targets := c15xTargets()
 	xf, xc, xv := wgen.F15xForms(r.Thorough()), wgen.F15xChains(r.Thorough()), wgen.F15xValue()
 	for _, f := range []*wgen.X15Family{xf, xc, xv} {
 		c15xRunFamily(r, f, targets)
 	}
+	c15RunMixedPolicies(r)
 	c15RunReuse(r)
 	c := fams[1].At(9)
 	r.Sample(map[string]any{"access": c.Sig, "source": wgen.Print(c.Mod)})
@@ -219,10 +224,11 @@ func runC15() int {
 		r.Sample(map[string]any{"family": f.Name, "case": cc.Sig, "hostile_tuples_of_this_program": len(pr.Inputs), "source": wgen.Print(cc.Mod)})
 	}
 	printKeys(r)
-	return r.Finish("hardened operators (/ and % signed/unsigned scalar, vector and mixed; unary minus; abs; f32->i32/u32) on every tuple of a hostile operand alphabet x 3 operand sources; every dynamic access form (27 forms: storage/uniform/private/workgroup/function/value arrays, vectors, matrix columns, runtime arrays, nested chains, pointer arguments, atomics; reads, stores, compound assignment) x every representative of the index partition {0, n-1, n, n+1, 2^31-1, 2^31, 2^32-1} x {u32, i32} index type; reads of variables without initialiser (7 types x function/private/workgroup). "+
+	return r.Finish("hardened operators (/ and % signed/unsigned scalar, vector and mixed; unary minus; abs; f32->i32/u32) on every tuple of a hostile operand alphabet x 3 operand sources; every dynamic access form (27 forms: storage/uniform/private/workgroup/function/value arrays, vectors, matrix columns, runtime arrays, nested chains, pointer arguments, atomics; reads, stores, compound assignment) x every representative of the index partition {0, n-1, n, n+1, 2^31-1, 2^31, 2^32-1} x {u32, i32} index type; reads of variables without initialiser (7 types x function/private/workgroup; F15xz: 1-2 workgroup variables of 3 types at every position of the global list among a storage buffer and a private variable, read directly or only through a helper function). "+
 		"F15xf: every index-EXPRESSION form (plain, i+1, i-1, i*2, i/2, i>>1, i|1, i+j, i%N, i&(N-1), min(i,N-1), clamp(i,0,N-1), i*0+(N-1) for N in {n-1,n,n+1}, max(i,0), u32(i)/i32(u), bitcast, select both arms, abs, -i, let alias, var alias, the load itself, a function result, a for-loop counter started at i or bounded by i) x every access site (the 27 forms and object x space x {read, write, compound, through a pointer argument}) x {u32,i32} x the transformed-index alphabet {0, n-1, n, n+1, 2n, 2^31-1, 2^31, 2^32-1, -(n-1), -n, -(n+1)}. "+
 		"F15xc: every 2- and 3-level access chain (array of array, array of vector, matrix column-then-row, array of matrix, struct member array of array, array of struct with array member, runtime array of array / of struct; outer level shorter, equal and longer than inner) x space x operation x every assignment of {i, j} to the levels including one variable at several levels x index source {let, var, repeated load} x index types x the product of the per-level partitions. "+
 		"F15xv: every holder of an aggregate BY VALUE (let, var copy, function parameter, parameter passed on, function result indexed directly or after a let, member of a loaded struct, member of a struct parameter, let of a sub-aggregate, sub-aggregate as argument) x source {storage, uniform, private, constructed} x aggregate {array, vectors, matrix column and column+row, array of vector, array of array, struct member array} x {u32,i32} x partition. "+
+		"Mixed MSL policies: F15acc and F15idx again under Index=Restrict+Buffer=ReadZeroSkipWrite and Index=ReadZeroSkipWrite+Buffer=Restrict, each access judged by the policy that governs its address space. "+
 		"History: every ordered pair (A, B) of a cover of hostile-data programs (zero-init programs over all global layouts / helper use / entry-point position, workgroup zero-init of 7 types, div/mod/neg/abs wrapper users, workgroup and atomic accesses) compiled on ONE spirv.Backend under 2 option sets, B's words executed and judged; every ordered pair of a smaller cover compiled back to back through the HLSL/MSL/GLSL function API, B's text executed. "+
 		"Run under each backend's protective options (SPIR-V default wrappers; HLSL RestrictIndexing+zero-init; MSL Restrict and ReadZeroSkipWrite; GLSL: no index policy exists, operators and zero-init only) in trapping interpreters with poisoned locals; results must equal the WGSL-defined values (x/0=x, x%0=0, INT_MIN/-1=INT_MIN, -INT_MIN=INT_MIN, clamped f->i) and the policy-defined access results (clamped element; zero / skipped write)",
 		[]string{"the index alphabet is a partition by the guard's branch outcomes, not the full 2^32 range",
